@@ -16,7 +16,9 @@ RULE = (
     "(fs) Hypothesis (data, column-table, requested-channels) triples for from_sparse: 0-8 spikes, "
     "1-5 local columns, 0-2 extra trailing dimensions, data dtypes int16/int32/float32/float64, "
     "column tables int32/uint32/int64 with distinct entries per row drawn from a channel universe "
-    "of up to 9 ids, requests = duplicate-free lists/arrays incl. unknown ids and the empty list; "
+    "of up to 9 ids (1 case in 8: probe-sized universes of 32-96 ids, 4-16 columns, requests of "
+    "20+ ids incl. far-away unknown ids such as 100000), requests = duplicate-free lists/arrays "
+    "incl. unknown ids and the empty list; "
     "a request with a duplicate must raise NotImplementedError. (model) generated datasets with "
     "pc-feature and template-feature stores, with and without a row (spike-id) table (>= 2 stored "
     "rows): get_features for strictly increasing spike subsets (also unstored spikes; values "
@@ -32,13 +34,20 @@ ASSUMPTIONS = ['numpy.linalg.eigh in the PCA oracle']
 
 @st.composite
 def _fs_case(draw):
+    big = draw(st.integers(0, 7)) == 0      # probe-sized tables and long requests
     ns = draw(st.integers(0, 8))
-    nloc = draw(st.integers(1, 5))
+    nloc = draw(st.integers(1, 5)) if not big else draw(st.integers(4, 16))
     extra = draw(st.lists(st.integers(1, 3), max_size=2))
-    universe = draw(st.integers(nloc, 9))
+    universe = draw(st.integers(nloc, 9)) if not big else draw(st.integers(max(nloc, 32), 96))
     cols = [list(draw(st.permutations(list(range(universe)))))[:nloc] for _ in range(ns)]
-    nreq = draw(st.sampled_from([0] + list(range(1, universe + 3)) * 2))
-    req = draw(st.lists(st.integers(0, universe + 2), min_size=nreq, max_size=nreq, unique=True))
+    if big:
+        nreq = draw(st.integers(20, universe))
+        pool = st.integers(0, universe + 2) | st.sampled_from([1000, 100000, 2 ** 20])
+        req = draw(st.lists(pool, min_size=nreq, max_size=nreq, unique=True))
+    else:
+        nreq = draw(st.sampled_from([0] + list(range(1, universe + 3)) * 2))
+        req = draw(st.lists(st.integers(0, universe + 2), min_size=nreq, max_size=nreq,
+                            unique=True))
     return {'k': 'fs', 'ns': ns, 'nloc': nloc, 'extra': extra, 'cols': cols, 'req': req,
             'ddt': draw(st.sampled_from(['int16', 'int32', 'float32', 'float64'])),
             'cdt': draw(st.sampled_from(['int32', 'uint32', 'int64'])),
@@ -266,6 +275,8 @@ def classify(case, info):
             labels.append('fs:extra-dims')
         if case['cdt'] == 'uint32':
             labels.append('fs:uint32-cols')
+        if len(case['req']) >= 20:
+            labels.append('fs:long-request')
     elif k == 'model':
         s = case['spec']
         if s['pcf']['rows'] is not None:
